@@ -28,6 +28,7 @@ pub fn draw(rng: &mut Rng, thorough: bool) -> RoundCfg {
         holder_threads: 0,
         record_events: true,
         disjoint: false,
+        fresh_keys: false,
     };
     match shape {
         0 | 1 => {
